@@ -39,7 +39,8 @@ def build(chk):
     ]
     # ---- (code) HLL form and Einfeldt bounds --------------------------------------------------------------------------------
     for kind, name in (("euler1d", "hlle"), ("shallowwater", "hll"), ("shallowwater", "rusanov"), ("euler1d", "hllc")):
-        rp = {"fn": "flux_clause", "args": {"kind": kind, "flux": name, "normal": None, "clause": "consistency"}}
+        rp = {"fn": "flux_clause", "args": {"kind": kind, "flux": name, "normal": None,
+                                            "clause": "consistency" if name == "hllc" else "hll-value"}}
 
         def form(kind=kind, name=name, rp=rp):
             n = z3.Int("n")
@@ -83,7 +84,9 @@ def build(chk):
             prove("einfeldt-bound/left", z3.And(sL <= 0, sL <= uL - cL), replay=rp)
             prove("einfeldt-bound/right", z3.And(sR >= 0, sR >= uR + cR), replay=rp)
             if name == "rusanov":
-                prove("rusanov-bound", z3.And(sR >= zabs(uL) + cL, sR >= zabs(uR) + cR), replay=rp)
+                # stated on the code's own value of cmax (not on the ghost cut): a wrong estimate is refuted directly
+                cmr = T.treal(H.store[(1, "cmax")]["real"].at(i))
+                prove("rusanov-bound", z3.And(cmr >= zabs(uL) + cL, cmr >= zabs(uR) + cR), replay=rp)
             prove("speeds-ordered", sR - sL > 0, replay=rp)
             fL, fR = physical_flux(kind, WLi, info), physical_flux(kind, WRi, info)
             UL, UR = cons(kind, WLi, info), cons(kind, WRi, info)
